@@ -165,6 +165,18 @@ def run(ctx):
     cases, gores, stats, infos = checklib.run_cases(ctx, binp, "C02", shards=shards, budget_s=3000 if thorough else 600)
     crashes = sum(len(i["crashes"]) for i in infos.values())
     ctx.log(f"harness: {len(cases)} cases, {crashes} crashes")
+    # checklib re-runs a crashed case alone and forgives it when it then passes. A schedule dependent
+    # panic of the code under test (or a wait that never returned) is not forgiven here: the process
+    # death happened, whatever a second run does.
+    kept = 0
+    for info in infos.values():
+        for c in info["crashes"]:
+            o = " ".join(c.get("output", "").split())
+            if ("panic:" in o or "fatal error:" in o or "C02-HANG" in o) and not gores.get(c["idx"], "").startswith("CRASH"):
+                gores[c["idx"]] = "CRASH " + o[:300]
+                kept += 1
+    if kept:
+        ctx.notes.append(f"{kept} process deaths were not reproduced when the case was run alone; they are still reported")
     if thorough:
         race_run(ctx, shards)
 
@@ -183,6 +195,49 @@ def run(ctx):
             nontrivial.add(cases[i].split(" ", 1)[1])
         if g != m:
             bad.append(i)
+    # tiny plans: exhaustive exploration of the plan on the transition system + coverage by the real runs
+    import re
+    groups = {}
+    for i in sorted(cases):
+        hdr = cases[i].split(" ", 1)[0]
+        if ",T1" in hdr and i in traces:
+            k = re.sub(r",S\d+,D\d+", "", cases[i])
+            groups.setdefault(k, []).append(traces[i])
+    cover = {}
+    if groups:
+        keys = sorted(groups)
+        cres = checklib.run_driver(ctx, "C02", {n: keys[n] + " ~ " + " | ".join(groups[keys[n]]) for n in range(len(keys))},
+                                   args=["cover"], shards=shards)
+        agg = dict(reach=0, visited=0, outside=0, traces=0, rejected=0, distinct=0, trans=0, plans=0, not_same=0, stuck=0, bad=0)
+        worst = None
+        for n in range(len(keys)):
+            r = cres.get(n, ("", {}))[0]
+            f = dict(x.split("=") for x in r.split() if "=" in x)
+            if "reach" not in f:
+                continue
+            agg["plans"] += 1
+            for k2 in ("reach", "visited", "outside", "traces", "rejected", "distinct", "trans", "stuck", "bad"):
+                agg[k2] += int(f[k2])
+            agg["not_same"] += 1 - int(f["same"])
+            if int(f["outside"]) or int(f["stuck"]) or int(f["bad"]) or f["same"] != "1":
+                worst = worst or (keys[n], r)
+        cover = agg
+        ctx.log(f"tiny plans: {agg['plans']} plans explored exhaustively on the model ({agg['reach']} states, {agg['trans']} transitions); "
+                f"{agg['traces']} runs of the real code ({agg['distinct']} distinct schedules) visited {agg['visited']} of these states, {agg['outside']} outside")
+        cov["states"] = agg["reach"]
+        cov["exhaustive_part"] = ("every interleaving of the transition system for each explored cascade plan with <= 3 events, <= 2 workers "
+                                  "(model side); the real code's runs of the same plans are mapped into that state space")
+        cov["tiny_plans_explored"] = agg["plans"]
+        cov["tiny_model_transitions"] = agg["trans"]
+        cov["tiny_impl_runs"] = agg["traces"]
+        cov["schedules_explored_distinct"] = agg["distinct"]
+        cov["tiny_states_visited_by_impl"] = agg["visited"]
+        cov["tiny_state_coverage"] = round(agg["visited"] / max(1, agg["reach"]), 3)
+        if worst:
+            rp = checklib.write_replay(ctx, "explore", {"payload": worst[0], "readable": decode(worst[0])},
+                                       "every terminal state of the exhaustive exploration has the expected observables; the real runs stay inside the explored space",
+                                       worst[1], "lean/.lake/build/bin/driver C02 explore", tag="explore")
+            checklib.violation(ctx, rp, f"exploration: {worst[1][:160]}")
     # trace replay on the transition system
     tcases = {i: cases[i] + " ~ " + traces[i] for i in traces}
     replayed = checklib.run_driver(ctx, "C02", tcases, args=["replay"], shards=shards) if tcases else {}
@@ -190,7 +245,7 @@ def run(ctx):
     for i in sorted(tcases):
         r = replayed.get(i, ("MISSING", {}))[0]
         if r.startswith("ok "):
-            ok_traces += len(traces[i].split(" ; "))
+            ok_traces += len(cases[i].split(" ")) - 1
             events += int(r.split()[1])
             legacy += int(r.split("legacy=")[1]) if "legacy=" in r else 0
         else:
